@@ -31,7 +31,7 @@ META = {
         "yields, uncertainties, normsys factors, lumi central value and sigma > 0; histosys data, normfactor init/bounds free reals; one workspace has a sample yield of free sign (non-zero: a zero yield with non-zero MC uncertainty is not expressible in the format's relative errors)",
     ],
     "bounds": {
-        "quick": "7 exportable workspaces (incl. parameter names containing the alpha_/gamma_ prefixes and a signed yield; 1-2 channels, 1-3 samples, 1-3 bins; histosys, normsys, normfactor with custom init/bounds, shapesys, staterror, shapefactor, lumi with central value != 1; fixed parameters; 1-2 measurements); export -> import, export -> import -> export -> import, two directories",
+        "quick": "8 exportable workspaces (incl. parameter names containing the alpha_/gamma_ prefixes and a signed yield; 1-2 channels, 1-3 samples, 1-3 bins; histosys, normsys, normfactor with custom init/bounds, shapesys, staterror, shapefactor, lumi with central value != 1; fixed parameters; 1-2 measurements); export -> import, export -> import -> export -> import, two directories",
         "thorough": "the 7 workspaces of the quick tier plus 100 seeded workspaces drawn from the spec-shape grammar (up to 3 channels x 3 samples x 4 bins x 5 modifiers per sample; MC-stat modifiers carry the per-channel name the XML format implies)",
     },
     "stubs": ["pyhf.writexml.uproot / pyhf.readxml.uproot -> RootStore", "pyhf.writexml.str / pyhf.readxml.float -> exact token round trip", "pyhf.writexml.np -> element-wise stand-in"],
@@ -53,6 +53,9 @@ def _workspaces(tier="quick", seed=0):
     Wk.append(("lumi-fixed", [channel("B", sample("s", 2, normfactor(), lumi()), sample("b", 2, lumi(), staterror("staterror_B", 2))),
                               channel("A", sample("b", 1, lumi(), histosys("h", 1)))],
                [dict(lcfg, fixed=True)], "mu"))
+    # luminosity start value different from its central value: the format has one Lumi attribute, which must carry the
+    # central value (auxdata); the start value is not representable and comes back as the central value
+    Wk.append(("lumi-init", [channel("A", sample("s", 2, normfactor(), lumi()), sample("b", 2, lumi(), normsys("k")))], [lcfg], "mu"))
     # parameter names that contain the prefixes the XML format adds to constant parameters
     Wk.append(("prefix-names", [channel("SR", sample("sig", 2, normfactor(), normsys("alpha_s")),
                                           sample("bkg", 2, histosys("jet_alpha_x", 2), normsys("gamma_like"), normfactor("nf_alpha_")))],
@@ -99,7 +102,7 @@ def _build(env, idx, prefix=""):
                 if smp["name"] == "interf":
                     env.assume(env.num(smp["data"][0]) != 0)
     for p in spec.get("parameters", []):
-        if p["name"] == "lumi":
+        if p["name"] == "lumi" and tag != "lumi-init":
             p["inits"] = [p["auxdata"][0]]      # HistFactory XML has one Lumi attribute for both
     obs = [{"name": c["name"], "data": [env.sym(f"{prefix}o_{c['name']}_{b}", nonneg=True) for b in range(len(c["samples"][0]["data"]))]} for c in spec["channels"]]
     return {"channels": spec["channels"], "observations": obs, "version": "1.0.0",
@@ -169,7 +172,10 @@ def _compare(env, label, w0, w1, key, models=True):
     if list(g0.par_order) != list(g1.par_order):
         return
     env.holds(f"{label}:fixed-flags", list(g0.suggested_fixed()) == list(g1.suggested_fixed()), key=key + ":fixed")
-    env.eq_all(f"{label}:inits", [N(x) for x in g1.suggested_init()], [N(x) for x in g0.suggested_init()], key=key + ":inits")
+    want_init = [N(x) for x in g0.suggested_init()]
+    if "lumi" in g0.par_order:
+        want_init[g0.par_slice("lumi").start] = N(g0.param_set("lumi").auxdata[0])     # one Lumi attribute: the central value
+    env.eq_all(f"{label}:inits", [N(x) for x in g1.suggested_init()], want_init, key=key + ":inits")
     has_lumi = "lumi" in g0.par_order
     for name in g0.par_order:
         sl = g0.par_slice(name)
